@@ -241,6 +241,9 @@ func propC13(c *Ctx, r *Report) {
 	r.Clauses = append(r.Clauses, "return rewritten to break (E77): where a pass rewrites return to break and applies itself to loop and switch bodies, the package has (and consults) a predicate that finds a return inside such a construct")
 	c.runReturnBreakDepth(r, "return.breakdepth", inPkgs("ir", "dxil"))
 	r.floor("return.breakdepth", 1)
+	r.Clauses = append(r.Clauses, "classified uses are rewritten (E78): where a pass's classifier keeps a candidate eligible on some statement kind that touches it, the rewriting functions of the package have code for that statement kind")
+	c.runClassifyRewritten(r, "classify.rewritten", inPkgs("dxil/internal/passes", "ir"), nil)
+	r.floor("classify.rewritten", 1)
 	r.Clauses = append(r.Clauses, shallowWalkerClause)
 	c.runShallowWalker(r, "walker.shallow", inPkgs("ir", "dxil"), shallowWalkerExceptions)
 	r.floor("walker.shallow", 10)
